@@ -368,7 +368,125 @@ def r_chain(p):
     return result(e, ins, b)
 
 
-RECIPES = {'chain': r_chain, 'tkeys': r_tkeys, 'idxmut': r_idxmut, 'tgrad': r_tgrad, 'tvec': r_tvec, 'form': r_form, 'logical': r_logical, 'symbolic': r_symbolic,
+def r_amap(p):
+    """an analytical (catalogue) mapping with numeric parameters applied to a square: the expressions of the mapped
+    domain's mapping and a lowered derivative must be those of THIS parameter set (MappedDomain.__new__ is cached)"""
+    from sympde.topology import analytical_mapping as am, element_of, LogicalExpr, dx, dy
+    cls = getattr(am, p['mcls'])
+    M = cls(p['mname'], dim=2, **p['params'])
+    A = mk_domain(p['dom'])
+    ins = [('A', A)]
+    b = snap(ins)
+    D = M(A)
+    V = mk_space(p['sp'], D)
+    u = element_of(V, p['fn'])
+    res = [[str(x) for x in D.mapping.expressions], [str(x) for x in M.expressions],
+           LogicalExpr(dx(u) if p.get('op', 'dx') == 'dx' else dy(u), D)]
+    return result(res, ins, b)
+
+
+def r_intsum(p):
+    """a sum of integrals over DIFFERENT regions, built in a given operand order and association; compared in the
+    same interpreter with the sum built left-nested in the reference order: args, print, ==, hash, forms, kernels"""
+    from sympde.topology import element_of
+    from sympde.topology.basic import Union
+    from sympde.calculus import grad, dot
+    from sympde.expr import BilinearForm, LinearForm, integral
+    from sympde.expr.evaluation import TerminalExpr
+    O = mk_domain(p['dom'])
+    V = mk_space(p['sp'], O)
+    u, v = element_of(V, p['fn']), element_of(V, p['fn'] + 't')
+    faces = list(O.boundary.args) if isinstance(O.boundary, Union) else [O.boundary]
+    regions = [O if k == 0 else faces[(k - 1) % len(faces)] for k in p['regions']]
+
+    def terms(bil):
+        ts = []
+        for i, R in enumerate(regions):
+            if bil:
+                ts.append(integral(R, dot(grad(u), grad(v)) if (R is O and i % 2 == 0) else (i + 2) * u * v))
+            else:
+                ts.append(integral(R, (i + 2) * v))
+        return ts
+
+    def build(ts, order, shape):
+        ts = [ts[i] for i in order]
+        if len(ts) == 2:
+            return ts[0] + ts[1]
+        if shape == 'right':
+            return ts[0] + (ts[1] + ts[2])
+        return (ts[0] + ts[1]) + ts[2]
+
+    n = len(regions)
+    order = p.get('order', list(range(n)))
+    ins = [('O', O), ('u', u), ('v', v)]
+    b = snap(ins)
+    out, bad = [], []
+    for bil in (True, False):
+        ref = build(terms(bil), list(range(n)), 'left')
+        e = build(terms(bil), order, p.get('shape', 'left'))
+        fr = BilinearForm((u, v), ref) if bil else LinearForm(v, ref)
+        fe = BilinearForm((u, v), e) if bil else LinearForm(v, e)
+        kind = 'bilinear' if bil else 'linear'
+        if not (e == ref and hash(e) == hash(ref)):
+            bad.append('%s sum: == %s, same hash %s; args %s vs %s' % (kind, e == ref, hash(e) == hash(ref),
+                                                                         [str(x) for x in e.args], [str(x) for x in ref.args]))
+        if not (fe == fr and hash(fe) == hash(fr)):
+            bad.append('%s form: == %s, same hash %s; %s vs %s' % (kind, fe == fr, hash(fe) == hash(fr), fe, fr))
+        out.append([[str(x) for x in e.args], str(e), str(fe), [str(k) for k in TerminalExpr(fe, O)]])
+    r = result(out, ins, b)
+    r['bad'] = bad
+    return r
+
+
+def r_iface(p):
+    """forms over the interface of a two-patch domain: explicit normals, Dn, jump / avg / minus / plus; the kernels
+    go through `_split_expr_over_interface` (sets of atoms, normal reversal on the plus side)"""
+    from sympde.topology import Domain, element_of, NormalVector
+    from sympde.calculus import jump, avg, minus, plus, Dn, dot, grad
+    from sympde.expr import BilinearForm, LinearForm, integral
+    from sympde.expr.evaluation import TerminalExpr
+    dim = p['dim']
+    A, B = mk_domain(['cube', p['names'][0], dim, 0]), mk_domain(['cube', p['names'][1], dim, 1])
+    ornt = {1: (), 2: (1,), 3: ((1, 1, 1),)}[dim]
+    D = Domain.join([A, B], [((0, 0, 1), (1, 0, -1)) + ornt], p['name'])
+    I = D.interfaces
+    V, W = mk_space(['S', p['sp'], None], D), mk_space(['V', p['sp'] + 'v', None], D)
+    u, v = element_of(V, p['fn']), element_of(V, p['fn'] + 't')
+    f, g = element_of(W, 'F' + p['fn']), element_of(W, 'G' + p['fn'])
+    n = NormalVector(p.get('normal', 'n'))
+    bil = {
+        'jn_jdn': lambda: ((f, v), dot(jump(f), n) * jump(Dn(v))),
+        'jj': lambda: ((u, v), jump(u) * jump(v)),
+        'adn_j': lambda: ((u, v), avg(u) * jump(Dn(v)) + jump(Dn(u)) * avg(v)),
+        'mp': lambda: ((u, v), minus(u) * plus(v) + plus(u) * minus(v)),
+        'jn_a': lambda: ((f, v), dot(jump(f), n) * avg(v)),
+        'fn_gn': lambda: ((f, g), dot(jump(f), n) * dot(jump(g), n)),
+        'dn_n': lambda: ((f, v), dot(minus(f), n) * plus(Dn(v)) + dot(plus(f), n) * minus(Dn(v))),
+    }
+    lin = {
+        'jdn': lambda: (v, jump(Dn(v))),
+        'jn': lambda: (g, dot(jump(g), n)),
+        'a_dnp': lambda: (v, avg(v) + plus(Dn(v))),
+    }
+    ins = [('D', D), ('n', n)]
+    b = snap(ins)
+    res = []
+    for k in p['bil']:
+        try:
+            args, e = bil[k]()
+            res.append([k, [str(x) for x in TerminalExpr(BilinearForm(args, integral(I, e)), D)]])
+        except Exception as ex:
+            res.append([k, 'raised ' + type(ex).__name__])
+    for k in p['lin']:
+        try:
+            arg, e = lin[k]()
+            res.append([k, [str(x) for x in TerminalExpr(LinearForm(arg, integral(I, e)), D)]])
+        except Exception as ex:
+            res.append([k, 'raised ' + type(ex).__name__])
+    return result(res, ins, b)
+
+
+RECIPES = {'iface': r_iface, 'amap': r_amap, 'intsum': r_intsum, 'chain': r_chain, 'tkeys': r_tkeys, 'idxmut': r_idxmut, 'tgrad': r_tgrad, 'tvec': r_tvec, 'form': r_form, 'logical': r_logical, 'symbolic': r_symbolic,
            'idxder': r_idxder, 'hodge': r_hodge, 'union': r_union, 'join': r_join, 'comm': r_comm,
            'equation': r_equation, 'mapped': r_mapped}
 
